@@ -97,6 +97,7 @@ def run(module, cfg, workdir, workers=16, simulate=None, depth=None, seed=None, 
     res.wall = time.time() - t0
     res.rc = rc
     tail = []
+    pending = None
     with open(outpath, "r", errors="replace") as f:
         for line in f:
             if line.startswith(_TR):
@@ -109,8 +110,19 @@ def run(module, cfg, workdir, workers=16, simulate=None, depth=None, seed=None, 
                 elif keep_tr:
                     res.tr.append(v)
                 continue
+            if pending is not None:
+                # TLC pretty-prints long values over several lines: join until the tuple brackets balance
+                pending += " " + line.strip()
+                if pending.count("<<") <= pending.count(">>"):
+                    res.prints.append(re.sub(r"^<<\s+", "<<", pending))
+                    pending = None
+                continue
             if line.startswith("<<"):
-                res.prints.append(line.rstrip("\n"))
+                txt = line.rstrip("\n")
+                if txt.count("<<") > txt.count(">>"):
+                    pending = txt
+                else:
+                    res.prints.append(re.sub(r"^<<\s+", "<<", txt))
                 continue
             tail.append(line)
             if len(tail) > 4000:
